@@ -74,6 +74,12 @@ def programs(tier):
         paths={"/x": {"get": {"operationId": "getX", "responses": {
             "200": {"description": "d", "content": {"application/json": {"schema": ref("A")}}}, "201": {"description": "d", "content": {"application/json": {"schema": {"type": "array", "items": ref("B")}}}},
             "404": {"description": "d", "content": {"text/plain": {"schema": {"type": "string"}}}}, "204": {"description": "d"}}}}}), {}, {"kind": "shape"}))
+    # every small reference graph (edge kinds: property, items, union member, additionalProperties, allOf parent)
+    from specmc.refmodels import graphs as G
+    for n, m in (((2, 2),) if tier == "quick" else ((2, 4), (3, 2))):
+        for label, edges, order in G.graphs(n, m):
+            kinds = "+".join(sorted({kd for _i, _j, kd in edges})) or "none"
+            out.append(("g:" + label, f"graph/{kinds}", gen.base_doc(G.components(n, edges, order), paths=G.paths(n)), {}, {"kind": "shape"}))
     if tier == "thorough":
         from checks import c02
         for c in c02._single_cases("quick"):
